@@ -722,6 +722,23 @@ Proof.
   repeat split; reflexivity.
 Qed.
 
+(* lag 1 of [1; 2; 4] leaves exactly two pairs (2,1), (4,2): with min_periods = 2 the correlation IS evaluated (not null);
+   with min_periods = 3 it is null *)
+Example C20_ex_autocorr_exactly_min_periods :
+  (autocorr (DT := IsNoneXR) 2 None (map Some [1; 2; 4]) 1 <> None /\
+   autocorr (DT := IsNoneXR) 3 None (map Some [1; 2; 4]) 1 = None)%R.
+Proof.
+  split.
+  - intros H. apply (autocorr_all_valid_defined_iff 2 [1; 2; 4]%R 1) in H.
+    cbn [skipn combine length Nat.sub Nat.max xs_of ys_of map fst snd] in H.
+    assert (E1 : popvarR [2; 4]%R = 1%R).
+    { unfold popvarR, cmom, devsum, meanR, nR, sumR. cbn [length map fold_right INR]. field. }
+    assert (E2 : popvarR [1; 2]%R = (1 / 4)%R).
+    { unfold popvarR, cmom, devsum, meanR, nR, sumR. cbn [length map fold_right INR]. field. }
+    rewrite E1, E2 in H. unfold EPS in H. destruct H as [H|[H|H]]; [lia|apply H; lra|apply H; lra].
+  - apply (autocorr_all_valid_defined_iff 3 [1; 2; 4]%R 1). left. cbn. lia.
+Qed.
+
 Print Assumptions C20_winsorize_quantile.
 Print Assumptions C20_winsorize_median.
 Print Assumptions C20_winsorize_sigma.
